@@ -304,6 +304,11 @@ def check_write(mtjs, mode_i, fmt, lig, enc):
     for ext in ('pmcfg', 'rcg', 'lex', 'gram', 'start', 'oc', 'OC'):
         if os.path.exists(dest + '.' + ext):
             os.unlink(dest + '.' + ext)
+    if sum(m.n() for m in mts) % 2 == 1:
+        # the destination files exist already, left by an earlier and larger grammar: they must be replaced
+        for ext in {'pmcfg': ('pmcfg', 'lex'), 'rcg': ('rcg', 'lex'), 'lopar': ('gram', 'lex', 'start', 'oc', 'OC')}[fmt]:
+            with open(dest + '.' + ext, 'w', encoding=enc) as f:
+                f.write('leftover 1 of an earlier, larger grammar\n' * 400)
     # lig == 2: the option given with a value, `--dest-opts lex_in_grammar:0` (the option is a switch: present = on)
     opts = (cli_options({'lex_in_grammar': 0}) if lig == 2 else {'lex_in_grammar': True}) if lig else {}
     if sum(m.n() for m in mts) % 2 == 0:
